@@ -632,6 +632,26 @@ def run(only=None):
             hist.kept_results(s, fn, [({"block": hex(int(b, 2))}, (lambda e=e, fn=fn: getattr(T, fn)(bitarray(e)))) for b, e in zip(kb, encs)], obs=lambda r: list(r))
         s.done()
 
+    if want("callers_buffer_overwritten_in_place"):
+        s = rep.sub("callers_buffer_overwritten_in_place",
+                    "the caller builds every 144-bit block and holds every received 196 bits in ONE bitarray (bytes entry points: one bytearray) that it "
+                    "overwrites in place between calls (one-bit changes, a field counted up, the first content again): encode, decode and the stage "
+                    "functions answer for the buffer's present content")
+        rbase = env.det_bits("c10-reuse", 144)
+        rb = [rbase]
+        for pos in (0, 143, 72, 5):
+            rb.append(rb[-1][:pos] + ("1" if rb[-1][pos] == "0" else "0") + rb[-1][pos + 1:])
+        rb += [rbase[:141] + format(i, "03b") for i in range(8)] + [rbase]
+        rencs = [T.encode(bitarray(b)).to01() for b in rb]
+        ents = [("encode", (lambda b: T.encode(b).to01()), [bitarray(b) for b in rb], None),
+                ("decode", (lambda e: T.decode(e).to01()), [bitarray(e) for e in rencs], list(rb)),
+                ("decode_as_bytes", (lambda e: bytes(T.decode(e, as_bytes=True)).hex()), [bitarray(e) for e in rencs], None)]
+        for fn in ("bits_to_dibits", "bits_to_tribits"):
+            if callable(getattr(T, fn, None)):
+                ents.append((fn, (lambda e, fn=fn: list(getattr(T, fn)(e))), [bitarray(e) for e in (rencs if fn == "bits_to_dibits" else rb)], None))
+        hist.reused_buffer(s, "trellis", ents)
+        s.done()
+
     if want("long_call_history"):
         s = rep.sub("long_call_history",
                     "encode / decode (bits and bytes) of one fixed block called again and again in one process: the result never depends on "
